@@ -1,5 +1,6 @@
 import E3fpVerif.Model.Fprinter
 import E3fpVerif.Lemmas.SortBy
+import E3fpVerif.Lemmas.MonoRelabel
 namespace E3fpVerif.Props.C18
 open E3fpVerif
 
@@ -295,5 +296,225 @@ example : ∃ s, runFp (exOpts false) exMol exG₁ = .ok s := by
   simp only
   rw [if_neg (by decide)]
   exact ⟨_, rfl⟩
+
+/-! ## deleting the ignored atoms
+
+With `exclude_floating` on, hydrogens and unbonded heavy atoms are not retained.  *Deleting* them from
+the molecule renumbers the remaining atoms by a strictly monotone map `π` (indices shift down, order
+is kept).  Every tie in the algorithm is broken by ascending atom index, which `π` preserves, so the
+run on the molecule after deletion is the run on the original with every index mapped by `π` -- list
+for list -- and every fingerprint is the same.  (Lemmas: `Lemmas/MonoRelabel.lean`.) -/
+
+open E3fpVerif.Mono
+
+/-- `(m', g')` is `(m, g)` after a strictly monotone renumbering `π` of the retained atoms (e.g. after
+deleting atoms that are not retained): the retained atoms correspond in order, with the same
+invariants, bonds and geometric decisions -/
+structure MonoRel (o : Opts) (π : Nat → Nat) (m : MolG) (g : Geo) (m' : MolG) (g' : Geo) : Prop where
+  /-- `π` is strictly monotone on the retained atoms -/
+  mono : ∀ a ∈ retained o m, ∀ b ∈ retained o m, a < b → π a < π b
+  retained_eq : retained o m' = (retained o m).map π
+  ident_eq : ∀ a ∈ retained o m, initIdent o m' (π a) = initIdent o m a
+  conn_eq : ∀ a ∈ retained o m, ∀ b ∈ retained o m, conn m' (π a) (π b) = conn m a b
+  bonded_eq : ∀ a ∈ retained o m, ∀ b ∈ retained o m, bonded m' (π a) (π b) = bonded m a b
+  /-- bonds of a type the table lacks (`KeyError`) -/
+  unknown_eq : (m'.bonds.any (fun e => e.2.2 = 0)) = (m.bonds.any (fun e => e.2.2 = 0))
+  within_eq : ∀ k, ∀ a ∈ retained o m, ∀ b ∈ retained o m, g'.within k (π a) (π b) = g.within k a b
+  stereo_eq : ∀ c ∈ retained o m, ∀ tuples : List (Nat × Int × Nat), (∀ t ∈ tuples, t.2.2 ∈ retained o m) →
+    g'.stereo (π c) (tuples.map (fun t => (t.1, t.2.1, π t.2.2))) = g.stereo c tuples
+
+theorem MonoRel.toLoc {o : Opts} {π : Nat → Nat} {m : MolG} {g : Geo} {m' : MolG} {g' : Geo}
+    (h : MonoRel o π m g m' g') : MonoLoc o π (retained o m) m g m' g' :=
+  ⟨h.mono, h.ident_eq, h.conn_eq, h.bonded_eq, h.within_eq, h.stereo_eq⟩
+
+/-- `π` is injective on the retained atoms -/
+theorem MonoRel.inj {o : Opts} {π : Nat → Nat} {m : MolG} {g : Geo} {m' : MolG} {g' : Geo}
+    (h : MonoRel o π m g m' g') (a b : Nat) (ha : a ∈ retained o m) (hb : b ∈ retained o m) (he : π a = π b) :
+    a = b :=
+  (MonoOn.eq_iff h.mono ha hb).1 he
+
+/-- **the run on the renumbered molecule is the renumbered run** (same error, or the same state with
+every atom index mapped by `π`: intern table, generator shells, level shells, past substructures) -/
+theorem runFp_mono {o : Opts} {π : Nat → Nat} {m : MolG} {g : Geo} {m' : MolG} {g' : Geo}
+    (h : MonoRel o π m g m' g') : runFp o m' g' = (runFp o m g).map (FState.monoRelabel π) := by
+  unfold runFp
+  simp only [h.unknown_eq, h.retained_eq, List.map_eq_nil_iff, List.length_map]
+  split
+  · rfl
+  · split
+    · rfl
+    · split
+      · rfl
+      · simp only [Except.map]
+        rw [initState_mono h.toLoc, (iterate_mono h.toLoc _ _ (initState_in o m (retained o m))).1]
+
+/-- every atom index stored in the final state of a run is a retained atom -/
+theorem runFp_in (o : Opts) (m : MolG) (g : Geo) (s : FState) (h : runFp o m g = .ok s) :
+    StateIn (retained o m) s := by
+  unfold runFp at h
+  simp only at h
+  split at h
+  · cases h
+  · split at h
+    · cases h
+    · split at h
+      · cases h
+      · injection h with h
+        rw [← h]
+        exact iterate_in o m g (retained o m) _ _ (initState_in o m (retained o m))
+
+/-- **deleting the ignored atoms does not change the fingerprint**: under `MonoRel`, the fingerprint of
+the renumbered molecule at any level and folding, under the renumbered mask, is that of the original
+(for a mask of retained atoms; `delete_floating_fingerprint_nomask` for no mask) -/
+theorem delete_floating_fingerprint {o : Opts} {π : Nat → Nat} {m : MolG} {g : Geo} {m' : MolG} {g' : Geo}
+    (h : MonoRel o π m g m' g') (req : Option Int) (bits : Option Nat) (mask : List Nat)
+    (hm : ∀ a ∈ mask, a ∈ retained o m) :
+    (runFp o m' g' >>= fun s => fingerprintAt o s req bits (mask.map π))
+      = (runFp o m g >>= fun s => fingerprintAt o s req bits mask) := by
+  rw [runFp_mono h]
+  cases hr : runFp o m g with
+  | error e => rfl
+  | ok s =>
+    show fingerprintAt o (s.monoRelabel π) req bits (mask.map π) = fingerprintAt o s req bits mask
+    exact fingerprintAt_relabel h.mono o s (runFp_in o m g s hr) req bits mask hm
+
+theorem delete_floating_fingerprint_nomask {o : Opts} {π : Nat → Nat} {m : MolG} {g : Geo} {m' : MolG} {g' : Geo}
+    (h : MonoRel o π m g m' g') (req : Option Int) (bits : Option Nat) :
+    (runFp o m' g' >>= fun s => fingerprintAt o s req bits [])
+      = (runFp o m g >>= fun s => fingerprintAt o s req bits []) :=
+  delete_floating_fingerprint h req bits [] (by intro a ha; cases ha)
+
+/-- the shells themselves correspond: same identifiers and structural ids, renumbered atoms -/
+theorem delete_floating_shells {o : Opts} {π : Nat → Nat} {m : MolG} {g : Geo} {m' : MolG} {g' : Geo}
+    (h : MonoRel o π m g m' g') (s : FState) (hr : runFp o m g = .ok s) (req : Option Int) (mask : List Nat)
+    (hm : ∀ a ∈ mask, a ∈ retained o m) :
+    runFp o m' g' = .ok (s.monoRelabel π) ∧
+    shellsAt (s.monoRelabel π) req (mask.map π) = (shellsAt s req mask).map (GShell.monoRelabel π) := by
+  refine ⟨?_, shellsAt_relabel h.mono s (runFp_in o m g s hr) req mask hm⟩
+  rw [runFp_mono h, hr]; rfl
+
+/-- `MonoRel` from coordinates: if the molecules correspond and the coordinates of corresponding
+retained atoms coincide, the two geometric conditions hold (any scalar type) -/
+theorem MonoRel.ofCoords {o : Opts} {π : Nat → Nat} {m m' : MolG} (mult : α) (X X' : Nat → V3 α)
+    (hmono : ∀ a ∈ retained o m, ∀ b ∈ retained o m, a < b → π a < π b)
+    (hret : retained o m' = (retained o m).map π)
+    (hident : ∀ a ∈ retained o m, initIdent o m' (π a) = initIdent o m a)
+    (hconn : ∀ a ∈ retained o m, ∀ b ∈ retained o m, conn m' (π a) (π b) = conn m a b)
+    (hbonded : ∀ a ∈ retained o m, ∀ b ∈ retained o m, bonded m' (π a) (π b) = bonded m a b)
+    (hunk : (m'.bonds.any (fun e => e.2.2 = 0)) = (m.bonds.any (fun e => e.2.2 = 0)))
+    (hX : ∀ a ∈ retained o m, X' (π a) = X a) :
+    MonoRel o π m (Geo.ofCoords mult X) m' (Geo.ofCoords mult X') :=
+  ⟨hmono, hret, hident, hconn, hbonded, hunk,
+    ofCoords_within mult X X' π (retained o m) hX, ofCoords_stereo mult X X' π (retained o m) hX⟩
+
+/-- with coordinates: deleting the ignored atoms (and their coordinates) leaves every fingerprint as it was -/
+theorem delete_floating_fingerprint_coords {o : Opts} {π : Nat → Nat} {m m' : MolG} (mult : α) (X X' : Nat → V3 α)
+    (hmono : ∀ a ∈ retained o m, ∀ b ∈ retained o m, a < b → π a < π b)
+    (hret : retained o m' = (retained o m).map π)
+    (hident : ∀ a ∈ retained o m, initIdent o m' (π a) = initIdent o m a)
+    (hconn : ∀ a ∈ retained o m, ∀ b ∈ retained o m, conn m' (π a) (π b) = conn m a b)
+    (hbonded : ∀ a ∈ retained o m, ∀ b ∈ retained o m, bonded m' (π a) (π b) = bonded m a b)
+    (hunk : (m'.bonds.any (fun e => e.2.2 = 0)) = (m.bonds.any (fun e => e.2.2 = 0)))
+    (hX : ∀ a ∈ retained o m, X' (π a) = X a) (req : Option Int) (bits : Option Nat) :
+    (runFp o m' (Geo.ofCoords mult X') >>= fun s => fingerprintAt o s req bits [])
+      = (runFp o m (Geo.ofCoords mult X) >>= fun s => fingerprintAt o s req bits []) :=
+  delete_floating_fingerprint_nomask
+    (MonoRel.ofCoords mult X X' hmono hret hident hconn hbonded hunk hX) req bits
+
+/-! ### non-vacuity: a molecule, an ignored atom, its deletion -/
+
+/-- C(0)–O(2)=Cl(3) with an ignored atom 1 of atomic number `z` and degree `d`: a hydrogen on the
+carbon (`z = 1, d = 1`) or an unbonded heavy atom (`z = 17, d = 0`) -/
+def delMol (z d : Nat) (extra : List (Nat × Nat × Nat)) : MolG :=
+  { atoms := [⟨0, 6, 1 + d, [1], [1]⟩, ⟨1, z, d, [9], [9]⟩, ⟨2, 8, 2, [2], [2]⟩, ⟨3, 17, 1, [4], [4]⟩],
+    bonds := extra ++ [(0, 2, 1), (2, 3, 2)] }
+
+/-- the same molecule with atom 1 deleted: indices 2, 3 shift down to 1, 2 -/
+def delMol' : MolG :=
+  { atoms := [⟨0, 6, 1, [1], [1]⟩, ⟨1, 8, 2, [2], [2]⟩, ⟨2, 17, 1, [4], [4]⟩],
+    bonds := [(0, 1, 1), (1, 2, 2)] }
+
+/-- the renumbering deletion induces -/
+def delπ (a : Nat) : Nat := if a = 0 then 0 else a - 1
+
+example : delπ 0 = 0 ∧ delπ 2 = 1 ∧ delπ 3 = 2 := by decide
+
+/-- the hydrogen (atom 1, bonded to the carbon) and the floating chlorine are not retained -/
+example : retained (exOpts true) (delMol 1 1 [(0, 1, 1)]) = [0, 2, 3]
+    ∧ retained (exOpts true) (delMol 17 0 []) = [0, 2, 3]
+    ∧ retained (exOpts false) (delMol 17 0 []) = [0, 1, 2, 3]
+    ∧ retained (exOpts true) delMol' = [0, 1, 2] := by decide
+
+/-- `MonoRel` holds between the molecule and its deletion, for arbitrary coordinates `X` of the
+original (the deleted molecule's coordinates are `X` without the row of atom 1) -/
+theorem delMol_monoRel (z d : Nat) (extra : List (Nat × Nat × Nat))
+    (hzd : (z, d, extra) = (1, 1, [(0, 1, 1)]) ∨ (z, d, extra) = (17, 0, [])) (mult : α) (X : Nat → V3 α) :
+    MonoRel (exOpts true) delπ (delMol z d extra) (Geo.ofCoords mult X) delMol'
+      (Geo.ofCoords mult (fun a => X (if a = 0 then 0 else a + 1))) := by
+  have hr : retained (exOpts true) (delMol z d extra) = [0, 2, 3] := by
+    rcases hzd with h | h <;> (injection h with h1 h2; injection h2 with h2 h3; subst h1 h2 h3; decide)
+  apply MonoRel.ofCoords
+  · rw [hr]; decide
+  · rw [hr]; decide
+  · rw [hr]
+    intro a ha
+    simp only [List.mem_cons, List.not_mem_nil, or_false] at ha
+    rcases ha with rfl | rfl | rfl <;> rfl
+  · rw [hr]
+    rcases hzd with h | h <;> (injection h with h1 h2; injection h2 with h2 h3; subst h1 h2 h3; decide)
+  · rw [hr]
+    rcases hzd with h | h <;> (injection h with h1 h2; injection h2 with h2 h3; subst h1 h2 h3; decide)
+  · rcases hzd with h | h <;> (injection h with h1 h2; injection h2 with h2 h3; subst h1 h2 h3; decide)
+  · rw [hr]
+    intro a ha
+    simp only [List.mem_cons, List.not_mem_nil, or_false] at ha
+    rcases ha with rfl | rfl | rfl <;> rfl
+
+/-- so deleting the hydrogen, or the floating heavy atom, leaves every fingerprint unchanged -/
+example (mult : α) (X : Nat → V3 α) (req : Option Int) (bits : Option Nat) :
+    (runFp (exOpts true) delMol' (Geo.ofCoords mult (fun a => X (if a = 0 then 0 else a + 1)))
+        >>= fun s => fingerprintAt (exOpts true) s req bits [])
+      = (runFp (exOpts true) (delMol 17 0 []) (Geo.ofCoords mult X)
+        >>= fun s => fingerprintAt (exOpts true) s req bits []) :=
+  delete_floating_fingerprint_nomask (delMol_monoRel 17 0 [] (Or.inr rfl) mult X) req bits
+
+example (mult : α) (X : Nat → V3 α) (req : Option Int) (bits : Option Nat) :
+    (runFp (exOpts true) delMol' (Geo.ofCoords mult (fun a => X (if a = 0 then 0 else a + 1)))
+        >>= fun s => fingerprintAt (exOpts true) s req bits [])
+      = (runFp (exOpts true) (delMol 1 1 [(0, 1, 1)]) (Geo.ofCoords mult X)
+        >>= fun s => fingerprintAt (exOpts true) s req bits []) :=
+  delete_floating_fingerprint_nomask (delMol_monoRel 1 1 [(0, 1, 1)] (Or.inl rfl) mult X) req bits
+
+/-- and the runs in question succeed (the statements above are not about two errors) -/
+example (g : Geo) : ∃ s, runFp (exOpts true) (delMol 17 0 []) g = .ok s := by
+  unfold runFp
+  rw [if_neg (by decide), if_neg (by decide)]
+  simp only
+  rw [if_neg (by decide)]
+  exact ⟨_, rfl⟩
+
+/-- the renumbering is needed: without exclusion the floating atom is retained and the deleted
+molecule has fewer retained atoms, so no `MonoRel` can hold -/
+example (π : Nat → Nat) (g g' : Geo) : ¬ MonoRel (exOpts false) π (delMol 17 0 []) g delMol' g' := by
+  intro h
+  have := congrArg List.length h.retained_eq
+  rw [List.length_map] at this
+  revert this
+  decide
+
+/-- **caveat** (`retained_eq` is a real hypothesis for hydrogens): `degree` is `GetDegree()`, which
+counts explicit hydrogens.  A heavy atom whose only bonds are to hydrogens is retained before the
+hydrogens are deleted (degree > 0) and is a floating atom afterwards (degree 0): here the carbon 0 of
+C(0)–H(1), O(2)=Cl(3) is retained, but not once H(1) is deleted, so no `MonoRel` relates the two. -/
+example (π : Nat → Nat) (g g' : Geo) :
+    ¬ MonoRel (exOpts true) π
+      { atoms := [⟨0, 6, 1, [1], [1]⟩, ⟨1, 1, 1, [9], [9]⟩, ⟨2, 8, 1, [2], [2]⟩, ⟨3, 17, 1, [4], [4]⟩],
+        bonds := [(0, 1, 1), (2, 3, 2)] } g
+      { atoms := [⟨0, 6, 0, [1], [1]⟩, ⟨1, 8, 1, [2], [2]⟩, ⟨2, 17, 1, [4], [4]⟩], bonds := [(1, 2, 2)] } g' := by
+  intro h
+  have := congrArg List.length h.retained_eq
+  rw [List.length_map] at this
+  revert this
+  decide
 
 end E3fpVerif.Props.C18
